@@ -30,7 +30,7 @@ def threshold(metric, measured):
 
 
 def run(ctx):
-    ctx.extra_lean_dirs = ["C10"]
+    ctx.extra_lean_dirs = ["C10", "C01"]
     ctx.trusted += [
         "hand port TsVerif/C10/Model.lean of ts_subtree_edit (tied by C10's correspondence; here its marking statements are re-decided on real dumps)",
         "the public logger (lexed_lookahead events) and the harness's counting read callback as measurements",
@@ -107,7 +107,9 @@ def run(ctx):
         marks_checked += kv.get("marks") == "ok"
         table.append({"case": cid, **{k: int(kv.get(k, "0") or 0) for k in METRICS},
                       "tokens": int(kv.get("tokens", "0") or 0), "lexed": int(kv.get("lexed", "0") or 0),
-                      "heap_nodes": int(kv.get("heap", "0") or 0), "marked": int(kv.get("marked", "0") or 0)})
+                      "heap_nodes": int(kv.get("heap", "0") or 0), "marked": int(kv.get("marked", "0") or 0),
+                      "repeat_chains": int(kv.get("chains", "0") or 0), "chain_max_elems": int(kv.get("chain_max_elems", "0") or 0),
+                      "chain_max_height": int(kv.get("chain_max_height", "0") or 0), "balance_slack": int(kv.get("balance_slack", "0") or 0)})
         if len(samples) < 4 and evals % 13 == 1:
             samples.append({"case": cid, "spec": specs.get(cid, ""), "result": kv})
         if kv["judge"] != "ok" and not (calibrate and "threshold" in kv["judge"]):
